@@ -31,7 +31,7 @@ PROPS = {
         rule='L0 differential: every prefix length octet 0..255 x exact/short/long for IPv4/IPv6 x plain/add-path, every truncation, generated and mutated lists; MP_REACH with every next-hop length octet x straddling attribute lengths, every flags octet'),
     'C20': dict(title='Peer registry behaves as a consistent map and rejects unusable configs', l0=True, live=True, lean=['CoreBGP.Props.C20', 'CoreBGP.Props.C20Lin', 'CoreBGP.Props.DecTieC20', 'CoreBGP.Props.C20Lock', 'CoreBGP.Props.C20Life'],
         rule='full configuration grid (router id kind x remote/local address kind x AS {0,1,65535,65536,2^32-1} x hold {0,1,2,3,65535} x port {-1,0,1,179,65535,65536}) through NewServer+AddPeer; seeded sequential registry operation sequences (<=13 ops over 6 keys, with and without Serve/Close) compared step by step with the model and the abstract map; concurrent histories (2-4 goroutines x 1-5 operations over 3 keys, serving or not, global-counter stamps) decided by the proved-sound-and-complete linearizability checker against the model and against the abstract map'),
-    'C12': dict(title='Protocol errors damp the peer; Cease and transport faults do not', l0=True, live=True, lean=['CoreBGP.Props.C12', 'CoreBGP.Props.C12L2', 'CoreBGP.Props.C09Tie', 'CoreBGP.Props.DecTieC12'],
+    'C12': dict(title='Protocol errors damp the peer; Cease and transport faults do not', l0=True, live=True, lean=['CoreBGP.Props.C12', 'CoreBGP.Props.C12L2', 'CoreBGP.Props.C09Tie', 'CoreBGP.Props.DecTieC12', 'CoreBGP.Props.C12Hist'],
         rule='exhaustive error histories up to length 4 (thorough 5) over the gap alphabet {0,1,10,100,299,300,301,1000 s} and random long ones through the real updateStartupDelay; every NOTIFICATION code 0..255 x sent/received x wrapped/bare through the real handleError'),
     'C05': dict(title='No remote input or API sequence can crash or wedge the process', l0=True, live=True, lean=['CoreBGP.Props.C05', 'CoreBGP.Props.C20Lock'], clauses=r'C05',
         rule='L0 differential with recover (PANIC is an output like any other) over every decoding entry point: the generators of C02/C08/C15/C16/C18/C19 plus oversize inputs (65535..70000 bytes with extreme length fields)'),
